@@ -64,3 +64,52 @@ Proof. reflexivity. Qed.
 Lemma gen_wiring_Strand_table_proportions :
   wsrc_Strand_table_proportions = Some (w_vector_of "table_proportions").
 Proof. reflexivity. Qed.
+
+(* SecondOrderMeasures.column_comparable_counts *)
+Lemma gen_wiring_SecondOrderMeasures_column_comparable_counts :
+  wsrc_SecondOrderMeasures_column_comparable_counts = Some (WCall (WGlobal "_ColumnComparableCounts")
+      [WSelf "_dimensions"; WVar "self"; WSelf "_cube_measures"] []).
+Proof. reflexivity. Qed.
+
+(* SecondOrderMeasures.column_proportions *)
+Lemma gen_wiring_SecondOrderMeasures_column_proportions :
+  wsrc_SecondOrderMeasures_column_proportions = Some (WCall (WGlobal "_ColumnProportions") [WSelf
+      "_dimensions"; WVar "self"; WSelf "_cube_measures"] []).
+Proof. reflexivity. Qed.
+
+(* SecondOrderMeasures.columns_table_proportion *)
+Lemma gen_wiring_SecondOrderMeasures_columns_table_proportion :
+  wsrc_SecondOrderMeasures_columns_table_proportion = Some (WCall (WGlobal "_MarginTableProportion")
+      [WSelf "_dimensions"; WVar "self"; WSelf "_cube_measures"; WAttr (WGlobal "MO") "COLUMNS"]
+      []).
+Proof. reflexivity. Qed.
+
+(* SecondOrderMeasures.row_comparable_counts *)
+Lemma gen_wiring_SecondOrderMeasures_row_comparable_counts :
+  wsrc_SecondOrderMeasures_row_comparable_counts = Some (WCall (WGlobal "_RowComparableCounts") [WSelf
+      "_dimensions"; WVar "self"; WSelf "_cube_measures"] []).
+Proof. reflexivity. Qed.
+
+(* SecondOrderMeasures.row_proportions *)
+Lemma gen_wiring_SecondOrderMeasures_row_proportions :
+  wsrc_SecondOrderMeasures_row_proportions = Some (WCall (WGlobal "_RowProportions") [WSelf
+      "_dimensions"; WVar "self"; WSelf "_cube_measures"] []).
+Proof. reflexivity. Qed.
+
+(* SecondOrderMeasures.rows_table_proportion *)
+Lemma gen_wiring_SecondOrderMeasures_rows_table_proportion :
+  wsrc_SecondOrderMeasures_rows_table_proportion = Some (WCall (WGlobal "_MarginTableProportion")
+      [WSelf "_dimensions"; WVar "self"; WSelf "_cube_measures"; WAttr (WGlobal "MO") "ROWS"] []).
+Proof. reflexivity. Qed.
+
+(* SecondOrderMeasures.table_proportions *)
+Lemma gen_wiring_SecondOrderMeasures_table_proportions :
+  wsrc_SecondOrderMeasures_table_proportions = Some (WCall (WGlobal "_TableProportions") [WSelf
+      "_dimensions"; WVar "self"; WSelf "_cube_measures"] []).
+Proof. reflexivity. Qed.
+
+(* StripeMeasures.table_proportions *)
+Lemma gen_wiring_StripeMeasures_table_proportions :
+  wsrc_StripeMeasures_table_proportions = Some (WCall (WGlobal "_TableProportions") [WSelf
+      "_rows_dimension"; WVar "self"; WSelf "_cube_measures"] []).
+Proof. reflexivity. Qed.
